@@ -13,6 +13,14 @@ class Ret(Exception):
         self.v = v
 
 
+class Break(Exception):
+    pass
+
+
+class Continue(Exception):
+    pass
+
+
 class Thrown(Exception):
     """the interpreted function threw"""
 
@@ -90,7 +98,12 @@ class Evaluator:
                 self.block(s["init"], env, this)
             n = 0
             while s.get("c") is None or self.truth(self.eval(s["c"], env, this)):
-                self.block(s["body"], env, this)
+                try:
+                    self.block(s["body"], env, this)
+                except Break:
+                    break
+                except Continue:
+                    pass
                 if s.get("inc") is not None:
                     self.eval(s["inc"], env, this)
                 n += 1
@@ -99,10 +112,68 @@ class Evaluator:
         elif k == "while":
             n = 0
             while self.truth(self.eval(s["c"], env, this)):
-                self.block(s["body"], env, this)
+                try:
+                    self.block(s["body"], env, this)
+                except Break:
+                    break
+                except Continue:
+                    pass
                 n += 1
                 if n > 10000:
                     raise Broken("loop does not terminate on the abstract domain")
+        elif k == "break":
+            raise Break()
+        elif k == "continue":
+            raise Continue()
+        elif k == "switch":
+            v = self.eval(s["c"], env, this)
+            if isinstance(v, tuple) and v and v[0] == "enum":
+                v = v[2]
+            body = s["body"]
+            stmts = body["s"] if body.get("k") == "block" else [body]
+            # flatten labels: list of (labels, statement)
+            flat = []
+            for st in stmts:
+                labels = []
+                while isinstance(st, dict) and st.get("k") in ("case", "default"):
+                    if st["k"] == "case":
+                        lo = st["lo"].get("iv", st["lo"].get("v"))
+                        hi = st["hi"].get("iv", st["hi"].get("v")) if st.get("hi") else lo
+                        labels.append((lo, hi))
+                    else:
+                        labels.append("default")
+                    st = st["sub"]
+                flat.append((labels, st))
+            start = None
+            for i, (labels, st) in enumerate(flat):
+                if any(l != "default" and l[0] <= v <= l[1] for l in labels):
+                    start = i
+                    break
+            if start is None:
+                for i, (labels, st) in enumerate(flat):
+                    if "default" in labels:
+                        start = i
+                        break
+            if start is not None:
+                try:
+                    for labels, st in flat[start:]:
+                        self.block(st, env, this)
+                except Break:
+                    pass
+        elif k == "rfor":
+            rng = self.eval(s["range"], env, this)
+            if hasattr(rng, "items"):
+                rng = rng.items
+            if not isinstance(rng, (list, tuple)):
+                raise Broken("range-for over something the abstract domain does not model")
+            for item in list(rng):
+                env[s["var"]["id"]] = item
+                try:
+                    self.block(s["body"], env, this)
+                except Break:
+                    break
+                except Continue:
+                    continue
         elif k == "throw":
             raise Thrown(s.get("l"))
         elif k == "null":
@@ -199,8 +270,12 @@ class Evaluator:
             return self.binop(op, a, b)
         if k == "cond":
             return self.eval(e["a"], env, this) if self.truth(self.eval(e["c"], env, this)) else self.eval(e["b"], env, this)
+        if k == "ilist":
+            return [self.eval(a, env, this) for a in e["a"]]
         if k == "mem":
             b = self.eval(e["b"], env, this)
+            if isinstance(b, tuple) and e["n"] in ("first", "second") and (not b or b[0] != "enum"):
+                return b[0 if e["n"] == "first" else 1]
             if isinstance(b, dict):
                 if e["n"] not in b:
                     raise Broken("abstract object has no field %s" % e["n"])
